@@ -43,6 +43,10 @@ type filesDir struct {
 	n    int
 }
 
+func (d *filesDir) Read(p []byte) (int, error) {
+	return 0, &os.PathError{Op: "read", Path: d.name, Err: os.ErrInvalid}
+}
+
 func (d *filesDir) ReadDir(n int) ([]fs.DirEntry, error) {
 	var dir string
 	if d.name != "." {
